@@ -89,6 +89,7 @@ fn hist_cfg_for(seed: u64, m: &HashMap<String, String>) -> hist::HistCfg {
         bias_reopen: m.contains_key("reopen-bias"),
         descriptors: m.contains_key("descriptors"),
         walks: m.contains_key("walks"),
+        early_reopen: m.contains_key("early-reopen"),
     }
 }
 
